@@ -9,14 +9,15 @@
 (* order: messages first) TLC must find a counterexample; that run is the vacuity check.    *)
 EXTENDS Pipeline, TLC
 
-CONSTANTS MaxTerm, MaxLen, MaxCrash, SaveBeforeSend, Self, Peers
+CONSTANTS MaxTerm, MaxLen, MaxCrash, SaveBeforeSend, ApplyAfterSave, Self, Peers
 
 VARIABLES vol,    \* volatile raft state [term, vote, log]
           dur,    \* durable image
           upd,    \* update in the pipeline: [u (Pipeline update record), msgs]
-          pc, told, crashes, covered
+          pc, told, crashes, covered,
+          applied  \* highest index handed to the user state machine
 
-vars == <<vol, dur, upd, pc, told, crashes, covered>>
+vars == <<vol, dur, upd, pc, told, crashes, covered, applied>>
 
 NoUpd == [u |-> [hasstate |-> FALSE, term |-> 0, vote |-> 0, commit |-> 0, n |-> 0, first |-> 0,
                  terms |-> <<>>, ssindex |-> 0, ssterm |-> 0], msgs |-> {}]
@@ -33,7 +34,7 @@ MkUpd(old, new, first, msgs) ==
    msgs |-> msgs]
 
 Init == /\ vol = [term |-> 0, vote |-> 0, log |-> <<>>]
-        /\ dur = DInit /\ upd = NoUpd /\ pc = "idle" /\ told = WInit /\ crashes = 0 /\ covered = TRUE
+        /\ dur = DInit /\ upd = NoUpd /\ pc = "idle" /\ told = WInit /\ crashes = 0 /\ covered = TRUE /\ applied = 0
 
 Campaign ==
   /\ vol.term < MaxTerm
@@ -50,6 +51,7 @@ HandleVote ==
 HandleAppend ==
   \E t \in vol.term..MaxTerm, c \in Peers, at \in 1..(Len(vol.log) + 1) :
     /\ t > 0 /\ at <= MaxLen
+    /\ at > applied                                    \* applied entries are committed: never overwritten
     /\ (at <= Len(vol.log) => vol.log[at] # t)        \* a conflict, or a new entry
     /\ LET new == [term |-> t, vote |-> IF t > vol.term THEN 0 ELSE vol.vote,
                    log |-> SubSeq(vol.log, 1, at - 1) \o <<t>>]
@@ -67,38 +69,47 @@ LeaderPropose ==
 
 Step == /\ pc = "idle"
         /\ (Campaign \/ HandleVote \/ HandleAppend \/ HandleHeartbeat \/ LeaderPropose)
-        /\ pc' = "stepped" /\ UNCHANGED <<dur, told, crashes, covered>>
+        /\ pc' = "stepped" /\ UNCHANGED <<dur, told, crashes, covered, applied>>
 
 Free(ms) == {m \in ms : ~Implies(m)}
 RECURSIVE ToldAll(_, _)
 ToldAll(w, ms) == IF ms = {} THEN w ELSE LET m == CHOOSE m \in ms : TRUE IN ToldAll(Told(w, Self, m), ms \ {m})
 
-SendFree == /\ pc = "stepped" /\ pc' = "free_sent" /\ UNCHANGED <<vol, dur, upd, told, crashes, covered>>
+SendFree == /\ pc = "stepped" /\ pc' = "free_sent" /\ UNCHANGED <<vol, dur, upd, told, crashes, covered, applied>>
 
 Save == /\ pc = (IF SaveBeforeSend THEN "free_sent" ELSE "others_sent")
         /\ dur' = ApplyUpdate(dur, upd.u)
         /\ told' = Withdraw(told, upd.u)
         /\ pc' = (IF SaveBeforeSend THEN "saved" ELSE "done")
-        /\ UNCHANGED <<vol, upd, crashes, covered>>
+        /\ UNCHANGED <<vol, upd, crashes, covered, applied>>
 
 SendOthers == /\ pc = (IF SaveBeforeSend THEN "saved" ELSE "free_sent")
               /\ covered' = (covered /\ \A m \in upd.msgs : MsgCovered(dur, Self, m))
               /\ told' = ToldAll(told, upd.msgs)
               /\ pc' = (IF SaveBeforeSend THEN "done" ELSE "others_sent")
-              /\ UNCHANGED <<vol, dur, upd, crashes>>
+              /\ UNCHANGED <<vol, dur, upd, crashes, applied>>
 
-Commit == /\ pc = "done" /\ pc' = "idle" /\ upd' = NoUpd /\ UNCHANGED <<vol, dur, told, crashes, covered>>
+Commit == /\ pc = "done" /\ pc' = "idle" /\ upd' = NoUpd /\ UNCHANGED <<vol, dur, told, crashes, covered, applied>>
 
 \* power loss: the volatile state is rebuilt from the durable image
 Crash == /\ crashes < MaxCrash
          /\ crashes' = crashes + 1
          /\ vol' = [term |-> dur.term, vote |-> dur.vote, log |-> dur.log]
          /\ upd' = NoUpd /\ pc' = "idle"
+         /\ applied' = 0          \* the state machine is rebuilt (from a snapshot / by replaying the durable log)
          /\ UNCHANGED <<dur, told, covered>>
 
-Next == Step \/ SendFree \/ Save \/ SendOthers \/ Commit \/ Crash
+\* the committed entries of the update are handed to the apply worker: after SaveRaftState
+\* (applySnapshotAndUpdate(.., false)); with ApplyAfterSave = FALSE (mutated order) already before it.
+\* The environment decides how much of the volatile log is committed.
+Apply == /\ pc \in (IF ApplyAfterSave THEN {"saved", "done"} ELSE {"stepped", "free_sent", "saved", "done"})
+         /\ \E i \in (applied + 1)..Len(vol.log) : applied' = i
+         /\ UNCHANGED <<vol, dur, upd, pc, told, crashes, covered>>
+
+Next == Step \/ SendFree \/ Save \/ SendOthers \/ Commit \/ Crash \/ Apply
 Spec == Init /\ [][Next]_vars
 
 PersistBeforeSend == covered
+ApplyNotAheadOfSave == applied = 0 \/ ApplyCovered(dur, applied)
 RestartOK == RestartMonotone(dur, dur, told)      \* what a restart at this instant would find
 =============================================================================
